@@ -15,12 +15,19 @@ def sort_of(st, sk):
     return z3.IntSort()
 
 
+def objref(T_):
+    """slot holds a reference to a heap object (not a callable id)"""
+    return isinstance(T_, (TRef, TList, TTable, TQueue))
+
+
 def reflike(T_):
     return isinstance(T_, (TRef, TList, TTable, TFunc, TQueue))
 
 
 def wf_ref(st, name, base_term, loaded):
     """well-formedness instance facts for a ref-like value loaded from the heap"""
+    if st.bound_vars:
+        return
     key = ('wf', base_term.get_id() if base_term is not None else None, loaded.get_id())
     if key in st.ghost:
         return
@@ -82,7 +89,8 @@ def load_typed(st, T_, get, wf=None):
             if isinstance(a, TNone):
                 alts.append((z3.simplify(tag == i), VNone()))
             else:
-                sub = load_typed(st, a, lambda s, k, i=i: get('#u%d%s' % (i, s), k), wf)
+                sub = load_typed(st, a, lambda s, k, i=i: get('#u%d%s' % (i, s), k),
+                                 (lambda s, t, i=i: wf('#u%d%s' % (i, s), t)) if wf is not None else None)
                 alts.append((z3.simplify(tag == i), sub))
         st.pc_fact(z3.And(tag >= 0, tag < len(T_.alts)))
         return VUnion(alts)
@@ -90,7 +98,7 @@ def load_typed(st, T_, get, wf=None):
         none = get('#none', 'r')
         return VUnion([(z3.simplify(none != 0), VNone()), (z3.simplify(none == 0), load_typed(st, T_.base, get, wf))])
     t = get('', slot_kind(T_))
-    if wf is not None and (reflike(T_) or (isinstance(T_, TOpt) and T_.single)):
+    if wf is not None and (objref(T_) or (isinstance(T_, TOpt) and T_.single and objref(T_.base))):
         wf('', t)
     return mk_value(st, T_, t)
 
@@ -252,6 +260,8 @@ def field_load(st, arrname, T_, ref):
         name = arrname + suf
         base = st.H0.get(name)
         wf_ref(st, name, z3.Select(base, ref) if base is not None else None, t)
+        if H is st.H:
+            st.wf_array(name, 'ref')
     return load_typed(st, T_, get, wf)
 
 
@@ -277,6 +287,8 @@ def list_len(st, L):
         return L.len
     H = st.cur_heap()
     t = st.hget_in(H, 'LEN', z3.IntSort(), L.t)
+    if H is st.H:
+        st.wf_array('LEN', 'len')
     if not z3.is_int_value(t):
         base = st.H0.get('LEN')
         if base is not None:
